@@ -113,6 +113,41 @@ fn main() {
             }
         }
     }
+    // truncated inputs: the interleaved value count is not a multiple of the channel count (a dangling
+    // partial inter-channel sample at the end), default configuration
+    {
+        let mut id = 300_000usize;
+        for (ch, bps, bs, frames, dangling) in [(2usize, 16usize, 64usize, 3usize, 1usize), (2, 8, 32, 1, 1), (3, 16, 64, 2, 1), (3, 24, 96, 2, 2), (5, 12, 32, 4, 3), (8, 20, 64, 1, 7), (2, 24, 4096, 1, 1), (6, 16, 256, 2, 5)] {
+            for extra_frames in [0usize, 17] {
+                let mut r = Lcg(0xabcd_0000 + id as u64);
+                let hi = (1i64 << (bps - 1)) - 1;
+                let n = frames * bs + extra_frames;
+                let x: Vec<i32> = (0..n * ch + dangling).map(|_| ((r.next() % (2 * hi as u64 + 1)) as i64 - hi) as i32 / 3).collect();
+                let mut cfg = config::Encoder::default();
+                cfg.block_size = bs;
+                let src = MemSource::from_samples(&x, ch, bps, 44100);
+                let out = match cfg.into_verified() {
+                    Ok(v) => match flacenc::encode_with_fixed_block_size(&v, src, bs) {
+                        Ok(s) => {
+                            let mut sink = ByteSink::new();
+                            match s.write(&mut sink) {
+                                Ok(()) => sink.as_slice().to_vec(),
+                                Err(_) => b"write error".to_vec(),
+                            }
+                        }
+                        Err(e) => format!("encode error: {e}").into_bytes(),
+                    },
+                    Err((_, e)) => format!("config error: {e}").into_bytes(),
+                };
+                println!(
+                    "{{\"ev\":\"out\",\"build\":\"{build}\",\"case\":{id},\"digest\":\"{}\",\"len\":{},\"mt\":false,\"bytes\":[]}}",
+                    fnv(&out),
+                    out.len()
+                );
+                id += 1;
+            }
+        }
+    }
     for i in 0..cases {
         let mut r = Lcg(0x1234_5678 + i as u64 * 7919);
         let ch = [1usize, 2, 2, 3, 6][i % 5];
